@@ -43,7 +43,34 @@ func ruleFailurePublication(c *Ctx, rule string) {
 		c.check(rule, "closeError:"+name+":under-lock", le.Must(i)[muxLock], "executes with the registry mutex held: "+le.Must(i).String(), p.ipos(i))
 		c.check(rule, "closeError:"+name+":on-error", p.Facts(i).NonNil("p:err"), "executes on the path with a non-nil error", p.ipos(i))
 	}
-	// one critical section: no unlock between the three
+	// one critical section: no unlock between the three. Publishing the error and sweeping the registry in two
+	// sections lets a registration slip in between: it sees no error yet, and its channel is never closed.
+	var unlocks []ssa.Instruction
+	allInstrs(f, func(i ssa.Instruction) {
+		if cl, ok := i.(*ssa.Call); ok {
+			if k, op := lockOp(&cl.Call); op == "unlock" && k == muxLock {
+				unlocks = append(unlocks, i)
+			}
+		}
+	})
+	reaches := func(a, b ssa.Instruction) bool {
+		return p.pathAvoiding(f, a, func(i ssa.Instruction) bool { return i == b }, func(ssa.Instruction) bool { return false }, nil) != nil
+	}
+	three := []ssa.Instruction{rErrStore, closeI, delI}
+	split := ""
+	for _, a := range three {
+		for _, b := range three {
+			if a == b {
+				continue
+			}
+			for _, u := range unlocks {
+				if reaches(a, u) && reaches(u, b) {
+					split = p.ipos(u)
+				}
+			}
+		}
+	}
+	c.check(rule, "closeError:publish-and-sweep-in-one-section", split == "", "no unlock of the registry mutex lies between recording the error and closing / deleting the registered channels (unlock at "+split+")", p.ipos(rErrStore))
 	one := p.sameSectionLookup(closeI.(*ssa.Call).Call.Args[0], closeI, muxLock)
 	c.check(rule, "closeError:one-critical-section", one, "the channels closed are the ones ranged over in the same critical section", p.ipos(closeI))
 	// the close is inside a range over the whole registry
